@@ -39,6 +39,9 @@ THEOREMS = [
     'Emg.prolong_add', 'Emg.smoothingC_add', 'Emg.coarseLvl_add',
     'Emg.runTrace_fixed', 'Emg.mgRun_fixed_phys', 'Emg.mgRun_fixed_exact_phys', 'Emg.solution_unique_phys',
     'Emg.allInj_phys', 'Emg.Phys.reach',
+    # Laplace domain: smoothers are energy-norm non-expansive
+    'Emg.energy_nonneg', 'Emg.relaxBlock_energy', 'Emg.smoothingC_energy_le',
+    'Emg.smoothing_energy_le', 'Emg.kernel_energy_le',
 ]
 
 BASELINE = os.path.join(os.path.dirname(__file__), 'c06_baseline.json')
@@ -289,8 +292,89 @@ def suite_linear(ctx):
     return bad
 
 
+def suite_energy(ctx):
+    """Laplace domain: `solver.smoothing` (jitted kernels, float64) never
+    increases the energy norm of the error (theorem smoothing_energy_le
+    executed on the code)."""
+    import emg3d
+    from emg3d import solver as S
+    rng = ctx.nprng('energy')
+    bad = []
+    n = 24 if ctx.thorough else 8
+    for t in range(n):
+        shp = [(4, 4, 4), (3, 5, 8), (8, 4, 6), (2, 6, 4), (6, 7, 3),
+               (16, 8, 4), (5, 5, 5), (4, 2, 10)][t % 8]
+        hs = [rng.uniform(10., 80., k)*(10.0**rng.uniform(-1, 1))
+              for k in shp]
+        grid = emg3d.TensorMesh(hs, (0., 0., 0.))
+        kw = {'property_x': 10**rng.uniform(-2, 2, shp)}
+        case = ['iso', 'VTI', 'HTI', 'tri'][t % 4]
+        if case in ('HTI', 'tri'):
+            kw['property_y'] = 10**rng.uniform(-2, 2, shp)
+        if case in ('VTI', 'tri'):
+            kw['property_z'] = 10**rng.uniform(-2, 2, shp)
+        if t % 3 == 1:
+            kw['mu_r'] = 10**rng.uniform(-0.5, 0.5, shp)
+        if t % 5 == 2:
+            kw['epsilon_r'] = rng.uniform(1., 50., shp)
+        model = emg3d.Model(grid, **kw)
+        sval = float(10**rng.uniform(-2, 2))
+        f0 = emg3d.Field(grid, frequency=-sval)
+        vm = emg3d.models.VolumeModel(model, f0)
+
+        def field(vals):
+            f = emg3d.Field(grid, frequency=-sval)
+            f.field[:] = vals
+            f.fx[:, [0, -1], :] = 0; f.fx[:, :, [0, -1]] = 0   # noqa
+            f.fy[[0, -1], :, :] = 0; f.fy[:, :, [0, -1]] = 0   # noqa
+            f.fz[[0, -1], :, :] = 0; f.fz[:, [0, -1], :] = 0   # noqa
+            return f
+        zero = emg3d.Field(grid, frequency=-sval)
+
+        def energy(u):
+            # <A u, u> with A u = -(residual of u for a zero source)
+            au = -S.residual(vm, zero, field(u)).field
+            return float(np.dot(au, u))
+        estar = field(rng.standard_normal(f0.field.size))
+        s = field(-S.residual(vm, zero, estar).field)
+        e = field(estar.field + rng.standard_normal(f0.field.size))
+        e0 = energy(e.field - estar.field)
+        if not e0 > 0:
+            bad.append(('energy not positive', shp, e0))
+            ctx.violation(
+                'laplace-operator-not-positive',
+                f'Laplace domain, shape {shp}, {case}: <A d, d> = {e0!r} for '
+                f'a random PEC field d (theorem energy_nonneg: >= 0)',
+                {'shape': list(shp), 'case': case})
+            continue
+        for step in range(6):
+            lr = int(rng.integers(0, 8))
+            nu = int(rng.integers(1, 4))
+            before = energy(e.field - estar.field)
+            S.smoothing(vm, s, e, nu, lr)
+            after = energy(e.field - estar.field)
+            ctx.count(key=('energy', shp, case, lr, nu, step))
+            if not after <= before*(1 + 1e-9) + 1e-13*e0:
+                bad.append(('energy increased', shp, case, lr, nu))
+                ctx.violation(
+                    'smoother-increases-energy-norm',
+                    f'Laplace domain (s={sval:.3g}), shape {shp}, {case}: '
+                    f'solver.smoothing(nu={nu}, lr_dir={lr}) changed the '
+                    f'energy norm of the error from {before!r} to {after!r} '
+                    f'(theorem smoothing_energy_le: never increases)',
+                    {'shape': list(shp), 'case': case, 'lr_dir': lr, 'nu': nu})
+                break
+    ctx.oblige('monitor: Laplace domain, real solver.smoothing (jitted '
+               'kernels, every line-relaxation code, 1-3 sweeps, stretched '
+               'grids, anisotropy, mu_r, epsilon_r): <A d, d> > 0 and the '
+               'energy norm of the error never increases (theorems '
+               'energy_nonneg, smoothing_energy_le executed on the code)',
+               'monitor', not bad, str(bad[:2]))
+    return bad
+
+
 def run(ctx):
-    ctx.lean('Emg3dVerif.Props.C06', THEOREMS)
+    ctx.lean('Emg3dVerif.Props.SmoothEnergy', THEOREMS)
     ctx.assumptions += [
         'PARTIAL: the convergence factor and its grid-size independence are '
         'MEASURED on the reference problems (obligation kind "measured"), '
@@ -303,6 +387,7 @@ def run(ctx):
         '(harness/c06_baseline.json), 1.5x the factor at 16^3',
     ]
     suite_linear(ctx)
+    suite_energy(ctx)
     suite_rates(ctx)
 
 
@@ -310,6 +395,7 @@ def replay(ctx, rp):
     r = rp['replay']
     if 'config' not in r:
         suite_linear(ctx)
+        suite_energy(ctx)
         for v in ctx.violations:
             print('replay:', v['sig'], v['what'][:200])
         return 1 if ctx.violations else 0
